@@ -39,7 +39,7 @@ def cases(rng, tier):
             elif r < 8:
                 s = rng.bytes(rng.below(6))
             else:
-                s = rng.choice([b"", b"=", b"=x", b"a", b"a=", b"a=b=c", b"\xff=1", b"k=\xff", b"a;b=c"])
+                s = rng.choice([b"", b"=", b"=x", b"a", b"a=", b"a=b=c", b"\xff=1", b"k=\xff", b"a;b=c", b"A=1", b"A", b"Path=/x", b"path=/y", b"PATH"])
             strs.append(s[:255])
         out.append("TXTATTR " + " ".join(["%x" % len(strs)] + [(x.hex() or "-") for x in strs]))
     # maps
@@ -51,6 +51,10 @@ def cases(rng, tier):
                 continue
             v = rng.choice([None, "", gen_text(rng, 1 + rng.below(6)), "x" * rng.choice([1, 200, 250, 253, 254, 255])])
             m[k] = v
+        if rng.chance(1, 4):
+            # keys differing only in letter case are distinct keys
+            for kk in rng.choice([["Path", "path"], ["tls", "TLS"], ["Model", "model", "MODEL"], ["é", "É"]]):
+                m[kk] = rng.choice([None, "", "v", kk])
         toks = ["%x" % len(m)]
         for k, v in m.items():
             toks += [k.encode().hex()] + (["N"] if v is None else ["V", v.encode().hex() or "-"])
